@@ -270,9 +270,10 @@ def run(tier, chk):
     report(chk, recs, verdicts)
     # evidence for the trusted side: X86Sem!Step against the host processor (register / immediate forms)
     from . import x86calib
-    x86calib.calibrate(chk, 4 if quick else 16, 7)
-    chk.assumptions.append('X86Sem.tla is calibrated against the host CPU on register/immediate forms only; memory, stack, string and '
-                           'control-transfer semantics rest on the transcription of the SDM')
+    x86calib.calibrate(chk, 4 if quick else 16, 7, 'reg')
+    x86calib.calibrate(chk, 3 if quick else 12, 7, 'mem')
+    chk.assumptions.append('X86Sem.tla is calibrated against the host CPU (native execution of register, immediate, memory, stack and string '
+                           'forms); control-transfer semantics and #DE conditions rest on the transcription of the SDM')
 
 
 # ----------------------------------------------------------------------------------------------
